@@ -188,6 +188,8 @@ pub struct World {
     pub hostile: Option<(Vec<usize>, u64, usize)>,
     history: Vec<u8>,
     hostile_after: usize,
+    /// rare long histories: hundreds of requests, so that ids / counters grow large
+    pub long_history: bool,
 }
 
 fn viol(ctx: &Ctx, class: &str, msg: String) -> Violation {
@@ -309,14 +311,14 @@ impl World {
         let ts = self.peer_ts;
         let connected = self.model.app.is_some();
         let w_connect = if connected { 1 } else { 14 };
-        let w_stream = if connected { 5 } else { 2 };
+        let w_stream = if connected { if self.long_history { 30 } else { 5 } } else { 2 };
         let bulk = self.mode == EMode::C17;
         let kind = ctx.ch.weighted(
             "op.kind",
             &[
-                1,                           // 0 end of script
+                if self.long_history { 0 } else { 1 }, // 0 end of script
                 w_connect,                   // 1 connect
-                w_stream,                    // 2 createStream
+                if self.long_history && ctx.run_index % 2 == 0 { 120 } else { w_stream }, // 2 createStream
                 w_stream,                    // 3 publish
                 w_stream - 1,                // 4 play
                 2,                           // 5 closeStream
@@ -328,7 +330,7 @@ impl World {
                 if bulk { 4 } else { 1 },    // 11 window ack
                 1,                           // 12 set chunk size
                 if bulk { 4 } else { 1 },    // 13 other control / data
-                1,                           // 14 malformed argument lists
+                if self.long_history { 0 } else { 1 }, // 14 malformed argument lists
             ],
         );
         let (m, csid): (RefMsg, u32) = match kind {
@@ -758,6 +760,7 @@ pub fn build(ctx: &mut Ctx, mode: EMode) -> Result<World, Violation> {
         hostile: None,
         history: Vec::new(),
         hostile_after: 0,
+        long_history: false,
     })
 }
 
@@ -765,11 +768,18 @@ pub fn run(ctx: &mut Ctx, mode: EMode) -> RunResult {
     ctx.world("E");
     ctx.step_cap = 30_000;
     let mut w = build(ctx, mode)?;
-    let max_msgs = match mode {
+    let mut max_msgs = match mode {
         EMode::C17 => 5 + ctx.ch.draw("op.count", 60) as usize,
         _ => 5 + ctx.ch.draw("op.count", if ctx.tier_thorough { 116 } else { 36 }) as usize,
     };
-    let max_app = if ctx.tier_thorough { 90 } else { 30 };
+    let mut max_app = if ctx.tier_thorough { 90 } else { 30 };
+    if mode == EMode::C09 && ctx.ch.chance("cfg.longhistory", 1, 60) {
+        // hundreds of requests on one connection: request and stream ids pass 255
+        w.long_history = true;
+        max_msgs = 400 + ctx.ch.draw("op.count", 400) as usize;
+        max_app = 600;
+        ctx.probe("e.long_history");
+    }
     let mut jumps_left = if mode == EMode::C18 { 2 } else { 0 };
     loop {
         if w.srv.c.closed || !ctx.step() {
@@ -822,6 +832,12 @@ pub fn run(ctx: &mut Ctx, mode: EMode) -> RunResult {
         EMode::C09 => {
             if w.model_alive {
                 ctx.probe("e.model_followed_to_end");
+            }
+            if w.model.issued_ids.iter().any(|t| *t >= 256) {
+                ctx.probe("e.request_id_past_255");
+            }
+            if w.model.issued_sids.iter().any(|t| *t >= 256) {
+                ctx.probe("e.stream_id_past_255");
             }
             if w.model.streams.values().any(|s| matches!(s, sm::St::Publishing(_))) {
                 ctx.probe("e.reached_publishing");
